@@ -272,6 +272,9 @@ def load_enums():
         ENUMS[k] = sorted(ENUMS[k])
 
 
+DROP = object()
+
+
 def systematic(rng, bases, quick, rich_rot=0):
     """ONE change per document, enumerated rather than sampled: for every distinct member position (array indices
     generalised) of the examples, every rejected-class value and the length boundaries of its text class, and every
@@ -281,11 +284,27 @@ def systematic(rng, bases, quick, rich_rot=0):
     per_key = 1 if quick else 4
     for name, b in bases:
         for path, parent, key, val in leaves(b):
-            if not isinstance(val, str) or not path or path[0] == "$schema" or path[-1] == "$schema":
+            if not path or path[0] == "$schema" or path[-1] == "$schema":
                 continue
             gp = tuple("*" if isinstance(x, int) else x for x in path)
             nm = key if isinstance(key, str) else (path[-2] if len(path) > 1 and isinstance(path[-2], str) else "")
-            cands = []
+            cands = [("drop", DROP)] if isinstance(key, str) else []      # a member left out (array elements are not members)
+            if not isinstance(val, str):
+                # objects, arrays, numbers, booleans: only their absence is probed here
+                if quick and name.startswith("rich:") and (sum(map(ord, "/".join(map(str, gp)))) + rich_rot) % 6 != 0:
+                    continue
+                for tag, v in cands:
+                    k = (gp, tag)
+                    if seen.get(k, 0) >= per_key:
+                        continue
+                    seen[k] = seen.get(k, 0) + 1
+                    m = copy.deepcopy(b)
+                    pp = m
+                    for x in path[:-1]:
+                        pp = pp[x]
+                    del pp[path[-1]]
+                    items.append(("systematic:%s:%s" % (name, json.dumps([(tag, path, None)], default=str)[:300]), m))
+                continue
             for cls in classes_of(nm, val):
                 good, bad = POOL[cls]
                 cands += [(cls + "-", v) for v in (bad if not (quick and cls == "code") else ["", "A-", "Z" * 33, "A&B", "A  B"])]
@@ -302,20 +321,23 @@ def systematic(rng, bases, quick, rich_rot=0):
                 continue                    # a rotating sixth of the rich positions per quick run
             if quick and name.startswith("rich:"):
                 # the rich documents have thousands of positions: three probes per position in the quick tier
-                cands = ([cands[rng.randrange(len(cands))]] if cands else []) + [("empty", "")]
+                cands = [x for x in cands if x[0] == "drop"] + ([cands[rng.randrange(len(cands))]] if cands else []) + [("empty", "")]
             for tag, v in cands:
                 # quick: every enumerated value once per member NAME (large enumerations sampled per position);
                 # thorough: once per member position
                 k = ((nm if quick and len(ENUMS.get(nm, [])) <= 100 else gp) if tag == "enum" else gp, tag, v)
-                if v == val or seen.get(k, 0) >= per_key:
+                if (v is not DROP and v == val) or seen.get(k, 0) >= per_key:
                     continue
                 seen[k] = seen.get(k, 0) + 1
                 m = copy.deepcopy(b)
                 pp = m
                 for x in path[:-1]:
                     pp = pp[x]
-                pp[path[-1]] = v
-                items.append(("systematic:%s:%s" % (name, json.dumps([(tag, path, v)], default=str)[:300]), m))
+                if v is DROP:
+                    del pp[path[-1]]
+                else:
+                    pp[path[-1]] = v
+                items.append(("systematic:%s:%s" % (name, json.dumps([(tag, path, None if v is DROP else v)], default=str)[:300]), m))
     return items
 
 
@@ -400,6 +422,19 @@ def targets(env):
         d = doc_of(env)
         if d is not None and isinstance(d.get("$schema"), str):
             t.append((d["$schema"], d))
+        # embedded objects that carry their own $schema (complements): the enclosing schema only says "an object"
+        root = d if d is not None else env
+
+        def nested(x, top):
+            if isinstance(x, dict):
+                if not top and isinstance(x.get("$schema"), str):
+                    t.append((x["$schema"], x))
+                for v in x.values():
+                    nested(v, False)
+            elif isinstance(x, list):
+                for v in x:
+                    nested(v, False)
+        nested(root, True)
     return t
 
 
@@ -494,7 +529,20 @@ def classify(e, inst, sid):
 
 
 def is_year0(e):
-    return e.get("kw") == "format" and isinstance(e.get("value"), str) and e["value"].startswith("0000-")
+    """python's datetime has no year 0000 (RFC 3339 allows it): a format error on an otherwise real date of year 0000 is
+    python's divergence, not the document's fault - but 0000-00-00 (the zero date) is no date in any year"""
+    v = e.get("value")
+    if not (e.get("kw") == "format" and isinstance(v, str) and v.startswith("0000-")):
+        return False
+    m = re.match(r"^0000-(\d\d)-(\d\d)", v)
+    if not m:
+        return False
+    try:
+        import datetime
+        datetime.date(2000, int(m.group(1)), int(m.group(2)))      # 0000 is a leap year in the proleptic calendar, like 2000
+        return True
+    except ValueError:
+        return False
 
 
 def py_effective(p):
@@ -880,7 +928,49 @@ def run(c):
             c.count("systematic/go-" + ("accepted" if acc else "rejected"), 1, label)
             if acc:
                 acc_items.append((label, d))
-    c.cov["systematic"] = {"single_changes": len(sysi), "accepted_by_go": len(acc_items), "enumerated_members": {k: len(v) for k, v in ENUMS.items()}}
+    # every member of the four large rich documents left out, one at a time (all positions on every run): the library is
+    # asked first; of the accepted ones only those whose OUTPUT still carries the member - as some zero value the
+    # serialiser made up ("", null, 0000-00-00, {} ...) - need the schema's verdict
+    drops = []
+    for n, d in ritems:
+        four = ["bill-invoice", "bill-order", "bill-delivery.", "bill-payment."]
+        if not any(k in n for k in four):
+            continue
+        if quick and not any(k in n for k in (four[c.seed % 4], four[(c.seed + 1) % 4])):
+            continue                # two of the four per quick run, rotating with the seed
+        seen_d = set()
+        for path, parent, key, val in leaves(d):
+            if not isinstance(key, str) or key.startswith("$") or not path:
+                continue
+            gp = tuple("*" if isinstance(x, int) else x for x in path)
+            if gp in seen_d:
+                continue
+            seen_d.add(gp)
+            m = copy.deepcopy(d)
+            pp = m
+            for x in path[:-1]:
+                pp = pp[x]
+            del pp[path[-1]]
+            drops.append(("systematic:%s:%s" % (n, json.dumps([("drop*", path, None)], default=str)[:300]), m, path))
+    ndrop_acc = ndrop_zero = 0
+    for i in range(0, len(drops), 20000):
+        chunk = drops[i:i + 20000]
+        for (label, d, path), (acc, out, kind) in zip(chunk, go_run([d for _, d, _ in chunk])):
+            c.count("rich-member-dropped/go-" + ("accepted" if acc else "rejected"), 1, label)
+            if not acc:
+                continue
+            ndrop_acc += 1
+            node = doc_of(out) if doc_of(out) is not None else out
+            try:
+                for x in path:
+                    node = node[x]
+            except (KeyError, IndexError, TypeError):
+                continue            # absent in the output as well: nothing was made up
+            if node in ("", None, "0000-00-00", {}, [], 0, "0", False) or (isinstance(node, str) and node.startswith("0000-00-00")):
+                ndrop_zero += 1
+                acc_items.append((label, d))
+    c.cov["systematic"] = {"single_changes": len(sysi), "accepted_by_go": len(acc_items), "enumerated_members": {k: len(v) for k, v in ENUMS.items()},
+                           "rich_members_dropped": len(drops), "dropped_and_accepted": ndrop_acc, "accepted_with_a_made_up_zero_value": ndrop_zero}
     for i in range(0, len(acc_items), 10000):
         judge(c, "systematic", acc_items[i:i + 10000], state)
     c.sample({"stream": "mutations", "change": muts[0][0], "document_schema": muts[0][1].get("$schema")}, limit=4)
